@@ -1,5 +1,6 @@
 import PlushModel.Write
 import PlushModel.Ctx
+import PlushModel.Gen.Iterators
 /-!
   Pure built-in helpers of /repo/helpers (text, escapes, encoders, iterators, meta) on the value
   universe, and Go's UTF-8 decoding for `[]rune(s)`.
@@ -87,20 +88,17 @@ def jsEscape : Bytes → Option Bytes
     let rest ← jsEscape r
     pure (a ++ rest)
 
-/-- iterators: the `ranger` of helpers/iterators/range.go over Go's 64-bit int -/
-def rangerNext (pos end_ : Int) : Option (Int × Int) :=   -- (new pos, yielded value)
-  if pos < end_ then some (wrap64 (pos + 1), wrap64 (pos + 1)) else none
-
 /-- `GroupBy`: group size = ceil(len/n), consecutive sub-slices; the whole slice when len = n. -/
 def groupByLoop {α} (groupSize : Nat) : Nat → List α → List (List α)
   | 0, _ => []
   | _, [] => []
   | fuel+1, xs => xs.take groupSize :: groupByLoop groupSize fuel (xs.drop groupSize)
 
+/-- `groupSize := u.Len() / size; if u.Len()%size != 0 { groupSize++ }` -/
+def groupSize (len size : Nat) : Nat := len / size + (if len % size != 0 then 1 else 0)
+
 def groupBy {α} (size : Nat) (xs : List α) : List (List α) :=
   if xs.length == size then [xs]
-  else
-    let groupSize := xs.length / size + (if xs.length % size != 0 then 1 else 0)
-    if groupSize == 0 then [] else groupByLoop groupSize xs.length xs
+  else if groupSize xs.length size == 0 then [] else groupByLoop (groupSize xs.length size) xs.length xs
 
 end Plush
